@@ -38,6 +38,10 @@ pub enum Op7 {
     SeekStart,
     SeekEnd,
     SeekAbs(u64),
+    /// seek to the start of the last element of the stream
+    SeekLastItem,
+    /// read (true) or skip (false) up to the next word boundary
+    ToBoundary(bool),
 }
 
 #[derive(Clone, Debug, Serialize, Deserialize)]
@@ -48,6 +52,10 @@ pub struct S07 {
     pub elems: Vec<Elem>,
     pub ops: Vec<Op7>,
     pub lockstep: bool,
+    /// insert a raw filler before the last element so that the stream ends exactly at
+    /// the end of the last 64-bit word (no slack after the last codeword)
+    #[serde(default)]
+    pub align_tail: bool,
 }
 
 pub struct C07;
@@ -93,7 +101,13 @@ impl Family for C07 {
                 14 => Op7::Bytes(rng.usize_range(0, 20)),
                 15..=17 => Op7::SeekItem(rng.usize_range(0, 40)),
                 18 | 19 => Op7::SeekWord(rng.usize_range(0, 40), *rng.pick(&[-1i8, 0, 1])),
-                20 => Op7::SeekHere,
+                20 => {
+                    if rng.chance(1, 2) {
+                        Op7::SeekHere
+                    } else {
+                        Op7::ToBoundary(rng.chance(1, 2))
+                    }
+                }
                 21 => Op7::SeekStart,
                 22 => Op7::SeekEnd,
                 _ => Op7::SeekAbs(rng.below(2000)),
@@ -112,6 +126,14 @@ impl Family for C07 {
                 p.at.sort_by_key(|x| x.0);
             }
         }
+        let align_tail = rng.chance(1, 4);
+        let mut ops = ops;
+        if align_tail || rng.chance(1, 6) {
+            // make sure the last element is read (through its table option) at least once
+            let at = rng.usize_range(0, ops.len());
+            ops.insert(at, Op7::ReadItem);
+            ops.insert(at, Op7::SeekLastItem);
+        }
         S07 {
             e,
             kind,
@@ -119,15 +141,35 @@ impl Family for C07 {
             elems,
             ops,
             lockstep: rng.chance(1, 4),
+            align_tail,
         }
     }
 
     fn exec(s: &S07, ctx: &mut Ctx) {
         ctx.step(vec![format!("e={:?}", s.e), "op=write".into()]);
-        let w = match write_stream(s.e, Wd::U64, &WrBackend::Vec, &[], &s.elems, ctx) {
+        let mut w = match write_stream(s.e, Wd::U64, &WrBackend::Vec, &[], &s.elems, ctx) {
             Ok(w) => w,
             Err(_) => return, // writer failures are C03's business
         };
+        let elems_store: Vec<Elem>;
+        let mut elems: &[Elem] = &s.elems;
+        if s.align_tail && !s.elems.is_empty() {
+            let total = *w.starts.last().unwrap();
+            let fill = (64 - total % 64) % 64;
+            let mut v = s.elems.clone();
+            let last = v.pop().unwrap();
+            if fill > 0 {
+                v.push(Elem::Raw { v: mask(0x5AA5_C33C_0FF0_9669, fill), n: fill });
+            }
+            v.push(last);
+            elems_store = v;
+            w = match write_stream(s.e, Wd::U64, &WrBackend::Vec, &[], &elems_store, ctx) {
+                Ok(w) => w,
+                Err(_) => return,
+            };
+            elems = &elems_store;
+            ctx.probe("c07.no_slack_after_last_codeword");
+        }
         let mut sim = RSim::new("C07", s.e, s.kind, &s.backend, &w.bytes);
         let wb = s.kind.word_bits();
         let len = sim.data_bits;
@@ -203,8 +245,8 @@ impl Family for C07 {
             };
             let rop: Option<ROp> = match op {
                 Op7::ReadItem => {
-                    match w.starts[..s.elems.len()].iter().position(|st| *st == sim.pos) {
-                        Some(k) => match &s.elems[k] {
+                    match w.starts[..elems.len()].iter().position(|st| *st == sim.pos) {
+                        Some(k) => match &elems[k] {
                             Elem::Raw { n, .. } => Some(ROp::Bits(*n)),
                             Elem::Code { code, rtab, v, .. } => {
                                 ctx.probe_if(!code.rtables(*rtab).is_empty(), "c07.table_read");
@@ -242,6 +284,15 @@ impl Family for C07 {
                 Op7::SeekStart => Some(ROp::Seek(0)),
                 Op7::SeekEnd => Some(ROp::Seek(len as u64)),
                 Op7::SeekAbs(p) => Some(ROp::Seek((*p).min(len as u64))),
+                Op7::SeekLastItem => Some(ROp::Seek(w.starts[elems.len().saturating_sub(1)].min(len) as u64)),
+                Op7::ToBoundary(read) => {
+                    let n = clip((wb - sim.pos % wb).min(64));
+                    if *read {
+                        Some(ROp::Bits(n))
+                    } else {
+                        Some(ROp::Skip(n))
+                    }
+                }
             };
             let Some(rop) = rop else { continue };
             if let ROp::Seek(p) = &rop {
@@ -306,6 +357,9 @@ impl Family for C07 {
         if s.lockstep {
             out.push(S07 { lockstep: false, ..s.clone() });
         }
+        if s.align_tail {
+            out.push(S07 { align_tail: false, ..s.clone() });
+        }
         if let Some(p) = s.backend.plan() {
             if !p.is_empty() {
                 for np in p.shrink(16) {
@@ -340,6 +394,7 @@ impl Family for C07 {
             "c07.table_read",
             "c07.lockstep_checked",
             "c07.seek_error_surfaced",
+            "c07.no_slack_after_last_codeword",
         ]
     }
 
